@@ -1,0 +1,6 @@
+//go:build !verif
+// +build !verif
+
+package sleep
+
+func verifYield(point int) {}
